@@ -278,3 +278,47 @@ func DeleteFiles(dir string, names []string, ioErrors int32, dryRun bool, rules 
 	}
 	return rt.VerifDeleteFiles(names)
 }
+
+// GenOpts selects the generator behaviour.
+type GenOpts struct {
+	DryRun, PreserveLinks, PreserveDevices, PreserveSpecials, PreservePerms, PreserveTimes bool
+	PreserveUid, PreserveGid, AlwaysChecksum, IgnoreTimes                                bool
+}
+
+// RecvGenerator runs the real recvGenerator for one entry against dir and
+// returns what it wrote to the connection (the request, if any). With
+// touchUp, touchUpDirs runs afterwards (as Transfer.Do does).
+func RecvGenerator(dir string, o GenOpts, e FileEntry, touchUp bool) (wire []byte, err error) {
+	root, err := os.OpenRoot(dir)
+	if err != nil {
+		return nil, err
+	}
+	defer root.Close()
+	var buf bytes.Buffer
+	no := func(rsyncopts.InfoLevel, uint16) bool { return false }
+	nod := func(rsyncopts.DebugLevel, uint16) bool { return false }
+	rt := &receiver.Transfer{
+		Logger: log.New(io.Discard),
+		Opts: &receiver.TransferOpts{
+			DryRun: o.DryRun, PreserveLinks: o.PreserveLinks, PreserveDevices: o.PreserveDevices, PreserveSpecials: o.PreserveSpecials,
+			PreservePerms: o.PreservePerms, PreserveTimes: o.PreserveTimes, PreserveUid: o.PreserveUid, PreserveGid: o.PreserveGid,
+			AlwaysChecksum: o.AlwaysChecksum, IgnoreTimes: o.IgnoreTimes, InfoGTE: no, DebugGTE: nod,
+		},
+		Dest:     dir,
+		DestRoot: root,
+		Env:      &rsyncos.Env{Stdout: io.Discard, Stderr: io.Discard},
+		Conn:     &rsyncwire.Conn{Reader: bytes.NewReader(nil), Writer: &buf},
+		Seed:     1,
+	}
+	f := &receiver.File{Name: e.Name, Length: e.Length, ModTime: time.Unix(e.ModTime, 0), Mode: e.Mode, Uid: e.Uid, Gid: e.Gid, LinkTarget: e.LinkTarget, Rdev: e.Rdev}
+	copy(f.Checksum[:], e.Checksum)
+	if err := rt.VerifRecvGenerator(0, f); err != nil {
+		return buf.Bytes(), err
+	}
+	if touchUp {
+		if err := rt.VerifTouchUpDirs([]*receiver.File{f}); err != nil {
+			return buf.Bytes(), err
+		}
+	}
+	return buf.Bytes(), nil
+}
